@@ -183,6 +183,10 @@ func (c *Real64) SQRT(a *Real64) *Real64 {
   x := a.GetFloat64()
   y := 0.5
   v0 := math.Pow(x, y)
+  if math.IsInf(x, -1) {
+    // pow(-Inf, 0.5) is +Inf, the square root of -Inf is not a number
+    v0 = math.NaN()
+  }
   f1 := func() (float64) {
     return math.Pow(x, y-1)*y
   }
